@@ -4,7 +4,7 @@
 Require Extraction.
 Require Import ExtrOcamlBasic.
 From Redo Require Import Base.Bytes Paths.Norm Paths.Rel DoFiles.Candidates LogRec.Meta Build.Model.
-From Redo Require Tokens.Model Sched.Locks Sched.OnceRun LogRec.Catlog.
+From Redo Require Tokens.Model Sched.Locks Sched.OnceRun LogRec.Catlog Sqlite.Wal.
 
 Extraction Language OCaml.
 Extraction "model.ml"
@@ -15,4 +15,5 @@ Extraction "model.ml"
   Tokens.Model.apply Tokens.Model.init Tokens.Model.Q Tokens.Model.find
   Sched.Locks.lapply Sched.Locks.empty
   LogRec.Catlog.run_log LogRec.Catlog.render_ev
-  Sched.OnceRun.oapply Sched.OnceRun.oinit Sched.OnceRun.olookup.
+  Sched.OnceRun.oapply Sched.OnceRun.oinit Sched.OnceRun.olookup
+  Sqlite.Wal.wal_step Sqlite.Wal.wal_init Sqlite.Wal.wal_abort.
